@@ -43,7 +43,7 @@ class C07(Prop):
             ops = OPS if rng.random() < 0.8 else OPS + ["debounce", "buftime"]
             pipe = tg.chain(rng, src, ops, rng.randint(1, 3), p_sync=0.25)
             mode = "fifo" if i % 2 == 0 else "mixed"
-            evs = tg.events(rng, rng.randint(3, 14), hot=(src[0] == "hot"), mode=mode,
+            evs = tg.events(rng, tg.hist_len(rng, 3, 14), hot=(src[0] == "hot"), mode=mode,
                             unsub_p=0.03)
             fl = "threads" if rng.random() < 0.35 else "local"
             out.append(Case("time", fl, [("pipe", [pipe])], evs, {"kind": mode}))
